@@ -52,6 +52,56 @@ class Recorder(object):
 record = Recorder()
 
 
+class VerifDemoProps(object):
+    """A second property set (the documented extension point of
+    GroupLibrary): one number per group."""
+    _yaml_schema = "value:\n  type: float\n  desc: a number\n"
+
+    def __init__(self, value=None):
+        self.value = value
+
+    @classmethod
+    def yaml_construct(cls, params, context):
+        return cls(params['value'])
+
+    def copy(self):
+        return VerifDemoProps(self.value)
+
+    def update(self, other, overwrite=False):
+        if self.value is not None and other.value != self.value \
+                and not overwrite:
+            from pgradd.Error import ReadOnlyDataError
+            raise ReadOnlyDataError('verifdemo value differs')
+        self.value = other.value
+
+
+class VerifDemoEstimate(object):
+    def __init__(self, lib, groups):
+        self.total = sum(groups[g] * lib[g]['verifdemo'].value
+                         for g in groups)
+
+
+def register_demo_property_set():
+    """Register the second property set (once per process)."""
+    from pgradd import yaml_io
+    from pgradd.GroupAdd.Library import GroupLibrary
+    if 'verifdemo' in GroupLibrary._property_set_estimator_types:
+        return False
+    yaml_io.register_class('VerifDemoProps',
+                           yaml_io.parse(VerifDemoProps._yaml_schema),
+                           VerifDemoProps)
+    GroupLibrary.register_property_set_type('verifdemo', 'VerifDemoProps',
+                                            VerifDemoEstimate)
+    return True
+
+
+def pset(property_sets, name):
+    """property_sets[name] or None.  (What lib[group] returns is either a
+    dict or the loader's attribute-backed mapping, whose .get() raises
+    AttributeError for a missing name.)"""
+    return property_sets[name] if name in property_sets else None
+
+
 def lib_path(name, how):
     """how: 'name' (builtin or fixture by path) | 'path'."""
     if name.startswith('Fix'):
@@ -69,6 +119,8 @@ def load_library(name, how='name'):
 def build_lineage(lineage):
     """lineage = {'base': [name, how], 'merges': [[lineage, overwrite], ..]}
     Failed merges are part of the lineage (they may leave partial data)."""
+    if lineage.get('registered'):
+        register_demo_property_set()
     lib = load_library(*lineage['base'])
     if lineage.get('constructed'):
         lib = construct_copy(lib)
@@ -147,7 +199,7 @@ def op_evaluate(obj, variant):
 
 
 def op_format(lib, group, units):
-    corr = lib[group].get('thermochem')
+    corr = pset(lib[group], 'thermochem')
     out, val = record(corr.yaml_format, units)
     if 'ok' in out:
         out['value'] = val
@@ -174,6 +226,11 @@ def same_outcome(a, b, rel=1e-12):
 # ------------------------------------------------------------------ digests
 
 def corr_tuple(c):
+    if not hasattr(c, 'ND_H_ref'):
+        # some other property set: its public attributes
+        return ['other', type(c).__name__,
+                sorted((k, repr(v)) for k, v in vars(c).items()
+                       if not k.startswith('_'))]
     cp = getattr(c, 'ND_Cp_data', None)
     items = sorted((repr(float(k)), repr(v)) for k, v in cp.items()) \
         if cp else []
